@@ -165,8 +165,11 @@ def src(node: ast.AST) -> str:
 
 class Program:
 
-    def __init__(self, sources: dict[str, str]):
-        """sources: {'labtech/lab.py': '...', ...} (paths relative to the repository root)."""
+    def __init__(self, sources: dict[str, str], trees: Optional[dict[str, ast.Module]] = None):
+        """sources: {'labtech/lab.py': '...', ...} (paths relative to the repository root);
+        trees: already parsed (canonicalised) module trees to use instead of parsing."""
+        self.sources = sources
+        self.canon_report: dict = {}
         self.modules: dict[str, ModuleInfo] = {}
         self.classes: dict[str, ClassInfo] = {}
         self.funcs: dict[str, FuncInfo] = {}
@@ -179,7 +182,7 @@ class Program:
                 modname = modname[:-len('.__init__')]
                 is_pkg = True
             try:
-                tree = ast.parse(sources[path], filename=path)
+                tree = trees[path] if trees is not None and path in trees else ast.parse(sources[path], filename=path)
             except SyntaxError as ex:
                 self.parse_errors.append(f'{path}: {ex}')
                 continue
@@ -196,7 +199,22 @@ class Program:
     # -- loading -------------------------------------------------------------------------
 
     @staticmethod
-    def from_dir(repo_root: str) -> 'Program':
+    def from_dir(repo_root: str, canonical: bool = True) -> 'Program':
+        sources = Program.read_sources(repo_root)
+        if canonical:
+            from .canon import canonicalise
+            return canonicalise(sources)[0]
+        return Program(sources)
+
+    @staticmethod
+    def from_sources(sources: dict[str, str], canonical: bool = True) -> 'Program':
+        if canonical:
+            from .canon import canonicalise
+            return canonicalise(sources)[0]
+        return Program(sources)
+
+    @staticmethod
+    def read_sources(repo_root: str) -> dict[str, str]:
         sources = {}
         pkg_dir = os.path.join(repo_root, PKG)
         for dirpath, _dirs, files in os.walk(pkg_dir):
@@ -206,7 +224,7 @@ class Program:
                     rel = os.path.relpath(full, repo_root)
                     with open(full, encoding='utf-8') as f:
                         sources[rel] = f.read()
-        return Program(sources)
+        return sources
 
     def check_anchor_modules(self) -> None:
         if self.parse_errors:
